@@ -139,13 +139,21 @@ class Plane(GeoBody):
 
     def __hash__(self):
         """return the hash of a Plane"""
+        # planes with opposite normals are equal, so hash the normal with a
+        # fixed sign
+        n = self.n
+        for c in n:
+            if abs(c) >= get_eps():
+                if c < 0:
+                    n = -n
+                break
         return hash(
             (
                 "Plane",
-                round(self.n[0], get_sig_figures()),
-                round(self.n[1], get_sig_figures()),
-                round(self.n[2], get_sig_figures()),
-                round(self.n * self.p.pv(), get_sig_figures()),
+                round(n[0], get_sig_figures()),
+                round(n[1], get_sig_figures()),
+                round(n[2], get_sig_figures()),
+                round(n * self.p.pv(), get_sig_figures()),
             )
         )
 
